@@ -75,19 +75,19 @@ _CACHE = {}
 
 
 def make_class(spec_id, base='Schema', class_opts=None):
-    """real utype class for a spec; class options only for what is fixed at declaration time (case_insensitive)"""
-    key = (spec_id, base, tuple(sorted((class_opts or {}).items())))
+    """real utype class for a spec with the given class-level Options (cached per option set)"""
+    key = (spec_id, base, tuple(sorted(((k, repr(v)) for k, v in (class_opts or {}).items()))))
     if key in _CACHE:
         return _CACHE[key]
     spec = SPECS[spec_id]
-    ns = {'__annotations__': {f['name']: int for f in spec}, '__module__': __name__,
-          '__qualname__': 'D_%s_%s' % (spec_id, base)}
+    name = 'D_%s_%s' % (spec_id, base)
+    ns = {'__annotations__': {f['name']: int for f in spec}, '__module__': __name__, '__qualname__': name}
     for f in spec:
         ns[f['name']] = field_obj(f)
     if class_opts:
         ns['__options__'] = Options(**class_opts)
     b = Schema if base == 'Schema' else DataClass
-    cls = type(b)('D_%s_%s' % (spec_id, base), (b,), ns)
+    cls = type(b)(name, (b,), ns)
     _CACHE[key] = cls
     return cls
 
@@ -197,6 +197,7 @@ def reference(spec_id, o, items):
     spec = SPECS[spec_id]
     mode = o.get('mode')
     errors = set()
+    optional = set()
     keys, attrs, deferred = {}, {}, {}
     n = len(items)
     if o.get('max_params') and n > o['max_params']:
@@ -204,6 +205,7 @@ def reference(spec_id, o, items):
     if o.get('min_params') and n < o['min_params']:
         errors.add('params_lack')
     provided = set()     # attnames given by the input (and accepted)
+    maybe = set()        # attnames whose providedness the documentation leaves open (conflicting spellings)
     present = set()      # attnames that hold a value in the result
     used = set()
     for f in spec:
@@ -230,6 +232,14 @@ def reference(spec_id, o, items):
             if len(distinct) > 1 and not o.get('ignore_alias_conflicts'):
                 if any(a != b for a in distinct for b in distinct):
                     errors.add('alias_conflict:' + out_name(f))
+                    # one of the spellings may be invalid as well, and whether the field counts as provided for
+                    # dependency purposes is not specified: both may or may not be reported next to the conflict
+                    if any(conv_int(raw, f['ge'])[0] != 'ok' for raw in distinct) and \
+                            (f['on_error'] or o.get('invalid_values') or 'throw') == 'throw':
+                        optional.add('parse:' + out_name(f))
+                    if any(g['deps'] for g in spec):
+                        optional.add('dependency')
+                    maybe.add(f['name'])
                     continue
             cands = []
             for raw in (distinct if len(distinct) > 1 else distinct[:1]):
@@ -255,9 +265,17 @@ def reference(spec_id, o, items):
                 # undetermined by the documentation: any candidate outcome is acceptable
                 val = c
                 provided.add(f['name'])
+                if any(x[0] == 'err' for x in cands):
+                    optional.add('parse:' + out_name(f))
+                    maybe.add(f['name'])
+                if any(x[0] != 'v' for x in cands) and any(g['deps'] for g in spec):
+                    optional.add('dependency')
             elif c[0] == 'v':
                 val = c[1]
                 provided.add(f['name'])
+            elif c[0] == 'default' and f['deps']:
+                # excluded by policy and replaced by its default: whether its dependencies still apply is left open
+                optional.add('dependency')
             # ('default',) falls through to the default logic with val UNSET
         if val is UNSET:
             if required:
@@ -285,7 +303,9 @@ def reference(spec_id, o, items):
     for f in spec:
         if f['name'] in provided:
             for d in f['deps']:
-                if d not in provided:
+                if d in maybe or f['name'] in maybe:
+                    optional.add('dependency')
+                elif d not in provided:
                     errors.add('dependency')
     # unknown keys
     add = o.get('addition')
@@ -309,7 +329,7 @@ def reference(spec_id, o, items):
                     attrs[k] = v
                 elif pol == 'throw':
                     errors.add('parse:' + k)
-    return dict(errors=errors, keys=keys, attrs=attrs, deferred=deferred)
+    return dict(errors=errors, optional=optional - errors, keys=keys, attrs=attrs, deferred=deferred)
 
 
 # ------------------------------------------------------------------------------------------ implementation side
@@ -340,11 +360,14 @@ def err_kinds(e):
     return {err_kind(e)}
 
 
-def run_impl(cls, items, o):
-    """('ok', key view, attribute view, instance) | ('err', kinds, exception) | ('crash', exception)"""
+def run_impl(cls, items, runtime=None):
+    """('ok', key view, attribute view, instance) | ('err', kinds, exception) | ('crash', exception)
+    options come from the class unless `runtime` (an options dict for cls.__from__(data, options=...)) is given"""
     try:
-        opts = Options(**o)
-        inst = cls.__from__(dict(items), options=opts)
+        if runtime is not None:
+            inst = cls.__from__(dict(items), options=Options(**runtime))
+        else:
+            inst = cls.__from__(dict(items))
     except exc.ParseError as e:
         return ('err', err_kinds(e), e)
     except Exception as e:  # noqa
